@@ -180,6 +180,7 @@ type World struct {
 	timerBudget    int
 	sigSeen        map[string]int
 	timersAnywhere bool
+	noOneShot      bool
 	clockStep      int
 	fp             *footprint
 	sleep          []sleepEntry
